@@ -6,7 +6,7 @@ use verus_builtin_macros::{verus_spec, verus_verify, proof, proof_decl};
 use vstd::std_specs::cmp::*;
 
 verus! {
-broadcast use effectlog::group_effectlog;
+broadcast use {effectlog::group_effectlog, vocab::lemma_fcount_push};
 
 // ------------------------------------------------------------------ opaque stand-ins (R9)
 #[verifier::external_body] pub struct BoxedState { _p: u8 }
@@ -39,6 +39,42 @@ pub mod vocab {
         Unlink(ActorCell),
     }
     pub enum Kind { SetStatus, Terminate, Notify, GetSupervisor, Unlink }
+    /// finer classification used by the order-insensitive clauses
+    pub enum Fine { SetStopping, SetStopped, SetOther, Terminate, Notify, SupSome, SupNone, Unlink }
+    pub open spec fn fine_of(e: Effect) -> Fine {
+        match e {
+            Effect::SetStatus(s) => if s == ActorStatus::Stopping { Fine::SetStopping } else if s == ActorStatus::Stopped { Fine::SetStopped } else { Fine::SetOther },
+            Effect::Terminate => Fine::Terminate,
+            Effect::Notify(_) => Fine::Notify,
+            Effect::GetSupervisor(o) => if o is Some { Fine::SupSome } else { Fine::SupNone },
+            Effect::Unlink(_) => Fine::Unlink,
+        }
+    }
+    /// number of effects of fine kind `k` among b[from..]
+    pub open spec fn fcount(b: Seq<Effect>, from: int, k: Fine) -> nat
+        decreases b.len() - from,
+    {
+        if from >= b.len() || from < 0 { 0 } else { (if fine_of(b[from]) == k { 1nat } else { 0nat }) + fcount(b, from + 1, k) }
+    }
+    pub proof fn lemma_fcount_zero(b: Seq<Effect>, from: int, k: Fine)
+        requires 0 <= from, fcount(b, from, k) == 0,
+        ensures forall|i: int| from <= i < b.len() ==> fine_of(#[trigger] b[i]) != k,
+        decreases b.len() - from,
+    {
+        if from < b.len() { lemma_fcount_zero(b, from + 1, k); }
+    }
+    pub broadcast proof fn lemma_fcount_push(b: Seq<Effect>, from: int, e: Effect, k: Fine)
+        requires 0 <= from <= b.len(),
+        ensures #[trigger] fcount(b.push(e), from, k) == fcount(b, from, k) + (if fine_of(e) == k { 1nat } else { 0nat }),
+        decreases b.len() - from,
+    {
+        if from < b.len() {
+            assert(b.push(e)[from] == b[from]);
+            lemma_fcount_push(b, from + 1, e, k);
+        } else {
+            assert(fcount(b.push(e), from + 1, k) == 0);
+        }
+    }
     pub open spec fn kind_of(e: Effect) -> Kind {
         match e {
             Effect::SetStatus(_) => Kind::SetStatus,
@@ -68,6 +104,24 @@ pub open spec fn cleanup_log(armed: bool, event: Option<SupervisionEvent>, sup: 
             + (match sup { Some(s) => seq![Effect::Unlink(s)], None => Seq::<Effect>::empty() })
             + seq![Effect::SetStatus(ActorStatus::Stopped)]
     }
+}
+/// C04/C05/C06/C08, independent of the order of independent steps: an armed guard publishes Stopping once and Stopped once and
+/// last, signals the children once, notifies the supervisor `n` times (and never after unlinking from it), unlinks iff it saw
+/// a supervisor, and does nothing else; a disarmed guard does nothing
+pub open spec fn cleanup_shape(a: Seq<Effect>, b: Seq<Effect>, armed: bool, n: nat) -> bool {
+    if !armed { b == a } else {
+        &&& a.len() <= b.len() && (forall|i: int| 0 <= i < a.len() ==> #[trigger] b[i] == a[i])
+        &&& b.len() > a.len() && b.last() == Effect::SetStatus(ActorStatus::Stopped)
+        &&& fcount(b, a.len() as int, Fine::SetStopping) == 1 && fcount(b, a.len() as int, Fine::SetStopped) == 1 && fcount(b, a.len() as int, Fine::SetOther) == 0
+        &&& fcount(b, a.len() as int, Fine::Terminate) == 1
+        &&& fcount(b, a.len() as int, Fine::Notify) == n
+        &&& fcount(b, a.len() as int, Fine::Unlink) == fcount(b, a.len() as int, Fine::SupSome)
+        &&& forall|i: int, j: int| a.len() <= i < j < b.len() && #[trigger] b[i] is Unlink ==> !(#[trigger] b[j] is Notify)
+    }
+}
+/// every supervision event sent after position `from` is `e`
+pub open spec fn notifies_only(b: Seq<Effect>, from: int, e: SupervisionEvent) -> bool {
+    forall|i: int| from <= i < b.len() ==> (#[trigger] b[i] matches Effect::Notify(x) ==> x == e)
 }
 /// which supervisor the cleanup saw: read back from the log
 pub open spec fn sup_seen(old_s: Seq<Effect>, new_s: Seq<Effect>, event: Option<SupervisionEvent>) -> Option<ActorCell> {
